@@ -47,6 +47,8 @@ Emit ==
         \* a second path constraint with next():  next(x1) - x1 <= 6  at the nodes 0..N-1 (the instance at the final node would
         \* reach outside the horizon); it must not change where the first one is imposed
         step |-> Tup([k \in 1..sc.N |-> Sub(R(6), Sub(val(0, ctl[k + 1]), val(0, ctl[k])))]),
+        \* a third one with prev() and explicit time:  x1 - prev(x1) <= 6 + t  at the nodes 1..N, with the time of that node
+        stepb |-> Tup([k \in 1..sc.N |-> Sub(Add(R(6), Add(sc.t0, Mul(sc.T, ctl[k + 1]))), Sub(val(0, ctl[k + 1]), val(0, ctl[k])))]),
         bnd0 |-> Sub(val(0, Zero), Q(1, 2)), bndf |-> Sub(val(1, One), R(-1)),
         \* grid='inf' constraints on two chain members (different numbers of coefficients, different constant terms):
         \*   x1 + 1/2 <= 7    and    -6 <= x2 - 1/2 <= 3/2
